@@ -101,9 +101,7 @@ Lemma hf_loop_spec target g : forall sub unfin tries hdr batch,
                   forall x i, In x sub -> x <> target -> lookup x unfin = Some i -> hi_root i <> r).
 Proof.
   induction sub as [|x sub IH]; intros unfin tries hdr batch ND H.
-  - exists unfin, tries, hdr. simpl. rewrite app_nil_r. repeat split; auto.
-    + intros (A & _); auto.
-    + intros A; split; auto. intros ? ? [].
+  - exists unfin, tries, hdr. simpl. rewrite app_nil_r. repeat split; auto; tauto.
   - inversion ND as [|? ? Hx ND']; subst.
     destruct (H x (or_introl eq_refl)) as (Hg & Hu). simpl.
     destruct (N.eqb_spec x g) as [|_]; [contradiction|].
@@ -113,15 +111,18 @@ Proof.
     { intros y Hy. destruct (H y (or_intror Hy)) as (A & B). split; auto.
       rewrite lookup_remove_other; auto. intros ->. contradiction. }
     exists u', t', h'. split; [|split; [|split]].
-    + rewrite E. f_equal. rewrite <- app_assoc. simpl. f_equal. f_equal.
-      apply flat_map_ext_in. intros y Hy. rewrite lookup_remove_other; auto. intros ->; contradiction.
+    + rewrite E.
+      match goal with |- (_, _, _, ?b1, _) = (_, _, _, ?b2, _) => assert (Eb : b1 = b2) end.
+      { rewrite <- app_assoc. simpl. do 2 f_equal.
+        apply flat_map_ext_in. intros y Hy. rewrite lookup_remove_other; auto. intros ->; contradiction. }
+      rewrite Eb. reflexivity.
     + intros y. rewrite Hu'. destruct (N.eqb_spec y x) as [->|Hne]; simpl.
       * destruct (existsb _ sub); auto. apply lookup_remove_same.
       * destruct (existsb _ sub); auto. apply lookup_remove_other; auto.
     + intros y. rewrite Hh'. destruct (N.eqb_spec y x) as [->|Hne]; simpl.
       * destruct (existsb (N.eqb x) sub) eqn:Ee.
         -- apply existsb_exists in Ee as (z & Hz & Ez). apply N.eqb_eq in Ez. subst. contradiction.
-        -- rewrite lookup_put_same. auto.
+        -- rewrite N.eqb_refl. auto.
       * destruct (existsb _ sub); [apply lookup_remove_other; auto|apply lookup_put_other; auto].
     + intros r. rewrite Ht'. split.
       * intros (A & B). split.
@@ -137,4 +138,59 @@ Proof.
            apply negb_true_iff, N.eqb_neq. intros ->. apply (B x i); auto.
         -- intros y j Hy Hyt Hj. apply (B y j); auto.
            rewrite lookup_remove_other in Hj; auto. intros ->; contradiction.
+Qed.
+
+(* ------------------------------------------------------------------ the cleanup after Prune *)
+
+Lemma drop_pruned_spec : forall pruned unfin tries,
+  NoDup pruned ->
+  exists unfin' tries',
+    drop_pruned pruned unfin tries = (unfin', tries')
+    /\ (forall y, lookup y unfin' = if existsb (N.eqb y) pruned then None else lookup y unfin)
+    /\ (forall r, mem r tries' = true <->
+                  mem r tries = true /\
+                  forall p i, In p pruned -> lookup p unfin = Some i -> hi_root i <> r).
+Proof.
+  induction pruned as [|p pruned IH]; intros unfin tries ND.
+  - exists unfin, tries. simpl. repeat split; auto; tauto.
+  - inversion ND as [|? ? Hp ND']; subst. simpl.
+    destruct (lookup p unfin) as [i|] eqn:Ep.
+    + destruct (IH (remove_key p unfin) (remove_n (hi_root i) tries) ND') as (u' & t' & E & Hu & Ht).
+      exists u', t'. split; auto. split.
+      * intros y. rewrite Hu. destruct (N.eqb_spec y p) as [->|Hne]; simpl.
+        -- destruct (existsb _ pruned); auto. apply lookup_remove_same.
+        -- destruct (existsb _ pruned); auto. apply lookup_remove_other; auto.
+      * intros r. rewrite Ht, mem_remove_n. split.
+        -- intros (A & B). apply andb_true_iff in A as (A1 & A2). split; auto.
+           intros q j [<-|Hq] Hj.
+           ++ rewrite Ep in Hj. inversion Hj; subst. apply negb_true_iff, N.eqb_neq in A2. auto.
+           ++ apply (B q j Hq). rewrite lookup_remove_other; auto. intros ->; contradiction.
+        -- intros (A & B). split.
+           ++ rewrite A. simpl. apply negb_true_iff, N.eqb_neq. intros ->. apply (B p i); auto.
+           ++ intros q j Hq Hj. apply (B q j); auto.
+              rewrite lookup_remove_other in Hj; auto. intros ->; contradiction.
+    + destruct (IH unfin tries ND') as (u' & t' & E & Hu & Ht).
+      exists u', t'. split; auto. split.
+      * intros y. rewrite Hu. destruct (N.eqb_spec y p) as [->|Hne]; simpl; auto.
+        destruct (existsb _ pruned); auto.
+      * intros r. rewrite Ht. split; intros (A & B); split; auto.
+        -- intros q j [<-|Hq] Hj; [congruence|eauto].
+        -- intros q j Hq Hj. apply (B q j); auto.
+Qed.
+
+(* ------------------------------------------------------------------ the batch flush *)
+
+Lemma flush_batch_spec : forall batch num n,
+  NoDup (map fst batch) ->
+  lookup n (flush_batch batch num) =
+  match lookup n batch with Some x => Some x | None => lookup n num end.
+Proof.
+  unfold flush_batch. induction batch as [|[k v] batch IH]; intros num n ND; simpl; auto.
+  inversion ND as [|? ? Hk ND']; subst. rewrite IH; auto. simpl.
+  destruct (N.eqb_spec k n) as [->|Hne].
+  - destruct (lookup n batch) eqn:E.
+    + exfalso. apply Hk. apply lookup_in in E. apply (in_map fst) in E. exact E.
+    + first [reflexivity | apply lookup_put_same].
+  - destruct (lookup n batch); auto.
+    first [reflexivity | apply lookup_put_other; auto | rewrite lookup_remove_other; auto].
 Qed.
